@@ -241,6 +241,33 @@ func checkC02(c *core.Ctx) {
 		c.Count("hugenumeral_cases", 1)
 	})
 
+	// sums of ordinary fractions whose exact tick count misses k+1/2 by less than 1e-12 (found by searching sums of
+	// three-digit denominators): float64 summation lands on or past the half, exact arithmetic does not
+	nearSums := [][]model.Frac{
+		{{Num: 35, Den: 179}, {Num: 228, Den: 229}, {Num: 255, Den: 313}, {Num: 182, Den: 347}, {Num: 151, Den: 349}},
+		{{Num: 678, Den: 1583}, {Num: 454, Den: 1669}, {Num: 591, Den: 1913}, {Num: 1905, Den: 1993}},
+		{{Num: 51, Den: 281}, {Num: 84, Den: 181}, {Num: 198, Den: 467}, {Num: 35, Den: 263}, {Num: 330, Den: 881}, {Num: 432, Den: 811}},
+		{{Num: 20010000000000000, Den: 19200000000000001}},
+		{{Num: 14221632512832, Den: 67108879}},
+		{{Num: 2, Den: 3}, {Num: 1, Den: 1920}},
+		{{Num: 1, Den: 2}, {Num: 1, Den: 3}, {Num: 1, Den: 128}},
+	}
+	c.Stream("nearhalfsums", len(nearSums)*3, func(i int, r *rand.Rand) {
+		v := nearSums[i%len(nearSums)]
+		var p model.Piece
+		switch i / len(nearSums) {
+		case 0:
+			p.Inst = []model.Instance{{Chord: chord(r), Values: v}, {Chord: chord(r), Values: one()}}
+		case 1:
+			p.Inst = []model.Instance{{Values: v}, {Chord: chord(r), Values: one()}}
+		default:
+			p.Inst = []model.Instance{{Chord: chord(r), Values: one()}, {Values: v}, {Chord: chord(r), Values: v}, {Values: one()}}
+		}
+		judgeTiming(c, "nearhalfsums", i, p, model.Flags{Track: 1 + i%3}, writeOpts{}, "")
+		c.Extra("nearhalfsums_example_exact_ticks", model.ExactTicks(960, nearSums[0]).FloatString(16))
+		c.Count("nearhalf_sum_cases", 1)
+	})
+
 	// adversarial near-halfway values: exact tick count within 1e-9 of k+1/2 but not equal
 	near := nearHalfValues()
 	c.Stream("nearhalf", len(near), func(i int, r *rand.Rand) {
